@@ -37,6 +37,16 @@ CHECKS = {
         technique="deterministic simulation: seeded baton-passing thread scheduler (sys.settrace line/call/return, optionally bytecode, pre-emption points inside pyscsi; random / PCT / boundary strategies) over programs of 1-3 caller threads, plus sequential histories; oracle = each operation's outcome equals the same operation run alone in a pristine process",
         text="Real threads, but which thread executes each source line of the library is the simulator's seeded decision, so every interleaving is replayable from one integer and the recorded switch list is minimised (ddmin) and replayed in a fresh process. Each operation (construct any of 42 classes, static encode/decode, data-in decode / round trip, facade calls on a private device) is compared with a reference run of the same thread alone; objects held by a thread must be byte-identical at the end. All ordered class pairs are enumerated sequentially in the thorough tier.",
         note="Line/call/return granularity (bytecode granularity in ~12% of runs), at most 3 threads, 8 ops per thread; threading.Lock/RLock are replaced by cooperative locks before import so a lock-based repair cannot deadlock the simulator."),
+    "C13": dict(
+        category="exploration", design_ref="DESIGN.md 5/C13",
+        technique="deterministic simulation: one facade call per run against a scripted recording target behind a plain device object, SG_IO and iSCSI; exactly-once / identity / ordering checked over the recorded seam history; documented argument names read from the docstrings at check time",
+        text="Every facade method x every command set that defines it x subsets of the documented optional arguments x boundary-biased values x device-provided data with a per-call nonce. The history of the call at the seam must show exactly one hand-over of the very command object and buffers the caller gets back, the attached set's opcode/service action, every supplied argument and every omitted default at the field the standard assigns, and a result equal to the class's own decode of the final buffer (and different from the decode of the untouched buffer). Enumerates method x set x {none, each, all optionals}; the rest is seeded sampling.",
+        note="Layouts and response encoders are the independent t10/ transcription; the opcode is compared with the attached set's own entry (C14 is not claimed); decoded values are not judged (C04)."),
+    "C17": dict(
+        category="exploration", design_ref="DESIGN.md 5/C17",
+        technique="deterministic simulation: invalid requests mixed into live command histories on simulated devices; oracle = specific exception + no event at any seam + unchanged target state; 256 opcode values enumerated",
+        text="Histories of valid facade calls and invalid requests of the five classes the property names (block size 0 incl. ATA byte_block/t_type, opcodes without fixed CDB length, unknown PR IN service actions, EXTENDED COPY unknown keys/type codes for SPC-4 and SPC-5, inconsistent TransportIDs) run against a live simulated target; for each invalid request the seam log between request and exception must be empty and the target's state digest unchanged. All 256 opcode values are enumerated through init_cdb and a constructor.",
+        note="Exception classes minted per command class are compared by name. Residue of refused constructions in shared state is C09's."),
 }
 
 NOT_APPLICABLE = {
